@@ -53,6 +53,7 @@ var c03Args = map[string]string{
 	"whitespace-only":      `<w>  </w>`,
 	"mixed":                `<m>text<b></b>tail</m>`,
 	"prefixed-empty":       `<oc:c xmlns:oc="urn:x:oc"><oc:enabled></oc:enabled><oc:name>x</oc:name><oc:also></oc:also></oc:c>`,
+	"same-name-nested":     `<interfaces><interface><interface name="x"/></interface><interface name="y"></interface></interfaces>`,
 	"percent":              `<description>100% reserved, a%2Fb if%20doc %d %s %v %%</description>`,
 }
 
